@@ -395,6 +395,21 @@ def rule_forwarding(ctx, rid, r):
             if ok:
                 ctx.ob(rid, hop, True, loc(caller, c), "forwarded unchanged (allow-listed coercions only)")
     ctx.floor(rid, "forwarding hops", n, 12)
+    # the documented default: without stale_check_max_workers the stale check uses max_workers - the value of max_workers must be
+    # able to reach the stale check's worker limit in run itself (a fallback that only rebinds a helper's local is no fallback)
+    from ..cfg import value_sources as _vs
+    for c in calls_to(m, run, ap):
+        a = arg(c, None, "max_workers")
+        ok = False
+        if isinstance(a, ast.Name):
+            leaves = _vs(run, CFG(run, may_raise=any_call_may_raise), a.id, c, run.module)
+            ok = ("param", "max_workers") in leaves and ("param", "stale_check_max_workers") in leaves
+        elif a is not None:
+            ok = {"max_workers", "stale_check_max_workers"} <= names_in(a)
+        ctx.ob(rid, f"{run.short}/stale-check-limit-defaults-to-max_workers", ok, loc(run, c),
+               "the stale check's worker limit is stale_check_max_workers, or max_workers when that is not given" if ok else
+               "max_workers cannot reach the stale check's worker limit: when stale_check_max_workers is not given the stale check runs "
+               "with the pool's own default (min(32, cpu_count + 4)) - more concurrent modified-time queries than max_workers allows", norm(c)[:100])
     # the engine uses its worker_count parameter for the pool
     lc_ = E.lifecycle(m, er)
     sp = lc_.spawn_loops
